@@ -116,3 +116,42 @@ Lemma lits_gcm_frozen :
   gen_lits_multiplication =
   [16; 0; 225; 16; 16; 0; 127; 1; 16; 1; 1; 0].
 Proof. repeat split; reflexivity. Qed.
+
+(* ---------- the consumer: the GM TLS cipher-suite table (Gen/TLSSuites.v, translator target tlssuites) --------------- *)
+(* every row of gmCipherSuites whose name says SM4_GCM names the constructor aeadSM4GCM, with a 16-byte key and a
+   4-byte implicit nonce; and no other row carries an AEAD *)
+From GmsmVerif Require Import Gen.TLSSuites.
+
+Definition aeadSM4GCM_name : string := "aeadSM4GCM"%string.
+Definition nil_name : string := "nil"%string.
+
+Definition name_says_sm4_gcm (n : string) : bool :=
+  match String.index 0 "SM4_GCM"%string n with Some _ => true | None => false end.
+
+Definition gm_suite_rows : list (string * (string * list N)) :=
+  combine gen_gmCipherSuites_names (combine gen_gmCipherSuites_aead gen_gmCipherSuites).
+
+Definition gm_row_ok (r : string * (string * list N)) : bool :=
+  let '(name, (aead, row)) := r in
+  if name_says_sm4_gcm name
+  then (String.eqb aead "aeadSM4GCM" && N.eqb (nth 1 row 0) 16 && N.eqb (nth 3 row 0) 4)%bool
+  else String.eqb aead "nil".
+
+Lemma gm_suite_table_sweep :
+  forallb gm_row_ok gm_suite_rows = true /\
+  List.length gm_suite_rows = List.length gen_gmCipherSuites /\
+  List.length gen_gmCipherSuites_names = List.length gen_gmCipherSuites /\
+  List.length gen_gmCipherSuites_aead = List.length gen_gmCipherSuites /\
+  existsb (fun r => name_says_sm4_gcm (fst r)) gm_suite_rows = true.
+Proof. vm_compute. repeat split; reflexivity. Qed.
+
+Lemma gm_gcm_suites_use_sm4gcm name aead row : In (name, (aead, row)) gm_suite_rows ->
+  (name_says_sm4_gcm name = true -> aead = aeadSM4GCM_name /\ nth 1 row 0 = 16 /\ nth 3 row 0 = 4) /\
+  (name_says_sm4_gcm name = false -> aead = nil_name).
+Proof.
+  intros Hin. destruct gm_suite_table_sweep as [H _]. rewrite forallb_forall in H. specialize (H _ Hin).
+  unfold gm_row_ok in H. destruct (name_says_sm4_gcm name); split; intros E; try discriminate E.
+  - apply andb_prop in H as [H H3]. apply andb_prop in H as [H1 H2].
+    apply String.eqb_eq in H1. apply N.eqb_eq in H2. apply N.eqb_eq in H3. repeat split; assumption.
+  - apply String.eqb_eq in H. exact H.
+Qed.
